@@ -12,7 +12,7 @@ COMMITTED_REPLAYS = os.path.join(VERIF, "replays")
 
 ENV = dict(os.environ)
 ENV["ASAN_OPTIONS"] = ("detect_leaks=0:abort_on_error=0:allocator_may_return_null=1:max_allocation_size_mb=2048:handle_abort=1:"
-                       "quarantine_size_mb=8:allocator_release_to_os_interval_ms=-1:malloc_context_size=8")
+                       "quarantine_size_mb=2:thread_local_quarantine_size_kb=64:allocator_release_to_os_interval_ms=-1:malloc_context_size=8")
 ENV["UBSAN_OPTIONS"] = "print_stacktrace=1:halt_on_error=1"
 ENV["TSAN_OPTIONS"] = "halt_on_error=1:exitcode=66:second_deadlock_stack=1"
 
